@@ -188,6 +188,16 @@ def main(tier):
                 rep.violation("verbosity-dependent:%s" % cfg_key(x[4]), "verbose=%s gives iterations/reduction factor/solution %s, verbose=%s gives %s"
                               "  [config %s]" % (x[0], x[1:4], ref[0], ref[1:4], json.dumps(short(x[4]))),
                               {"config": x[4], "kind": "verbosity", "other": ref[4]})
+    # process history: whole solves, every ordered pair of representatives in one process against the fresh process
+    reps = []
+    for strat, extr, cycle in itertools.product((0, 1), (0, 1, 2, 3), (0, 2)):
+        cfg = base(1, 2, 2, 1, cycle // 2, strat, extr, cycle, fmg=(1 if extr == 1 else 0))
+        cfg["indep"] = 0
+        reps.append(("strategy %d, extrapolation %d, cycle %d" % (strat, extr, cycle), gl.line_of("h", cfg)))
+    cfg = base(2, 1, 3, 0, 1, 0, 1, 1, div2=1)
+    cfg["indep"] = 0
+    reps.append(("33x64 take implicit W", gl.line_of("h", cfg)))
+    hist_cov = gl.process_history(binary, reps, rep, "solve")
     cov = {
         "evaluations": len(cases),
         "verbosity_groups_compared": verb_groups,
@@ -206,6 +216,7 @@ def main(tier):
         "bounds": "deviation bound %s; grids 17x32%s" % ("2" if tier == "thorough" else "1 for all cores, 2 for two of them", ", 33x64" if tier == "thorough" else " (33x64 and anisotropic as deviations)"),
         "exhaustive": True,
     }
+    cov.update(hist_cov)
     return rep.finish(cov, ["independent residual: own grid copy, freshly selected input functions, own right-hand side, the "
                             "other strategy's residual operator, own coarse level/injection/combination (harness/gmgcfg.h)",
                             "slack factor %.2f on the tolerance" % SLACK])
@@ -214,6 +225,8 @@ def main(tier):
 def replay(path):
     rp = json.load(open(path))["replay"]
     binary = _build()
+    if rp.get("kind") == "process-history":
+        return gl.replay_process_history(binary, rp, PID, path)
     cfg, kind = rp["config"], rp.get("kind", "core")
     if kind == "verbosity":
         outs = []
